@@ -21,6 +21,9 @@ def main():
             mod = os.path.basename(f)[:-4]
             if mod.startswith('MC'):
                 continue
+            if 'Apalache' in open(f).read():
+                print('skip %-14s %-22s (Apalache module, checked by apalache-mc)' % (spec, mod))
+                continue
             ok, out = tlc.sany(spec, mod)
             print('sany %-14s %-22s %s' % (spec, mod, 'ok' if ok else 'FAILED'))
             if not ok:
